@@ -296,6 +296,34 @@ def equivalence_variants(src_text: str, qual: str):
             blk.insert(si, ast.Assign(targets=[ast.Name(id=tmp, ctx=ast.Store())], value=target, lineno=st.lineno))
             done += 1
             yield (f"extract `{ast.unparse(e0)[:50]}` of line {st0.lineno} into a local", _unparse(t))
+    # two adjacent, independent, call-free assignments change places
+    def _rw(st):
+        reads = {ast.unparse(x) for x in ast.walk(st.value) if isinstance(x, (ast.Name, ast.Attribute)) and isinstance(getattr(x, "ctx", None), ast.Load)} - {"self"}
+        writes = set()
+        for tg in st.targets:
+            if isinstance(tg, (ast.Name, ast.Attribute)):
+                writes.add(ast.unparse(tg))
+            else:
+                writes.add("*")
+        return reads, writes
+    swaps = 0
+    for bi, blk0 in enumerate(_blocks(fn0)):
+        for si in range(len(blk0) - 1):
+            a, b = blk0[si], blk0[si + 1]
+            if swaps >= 5 or not (isinstance(a, ast.Assign) and isinstance(b, ast.Assign)):
+                continue
+            if any(isinstance(x, (ast.Call, ast.Subscript, ast.Await, ast.Yield, ast.NamedExpr)) for st in (a, b) for x in ast.walk(st)):
+                continue
+            ra, wa = _rw(a)
+            rb, wb = _rw(b)
+            pref = lambda ws, names: any(n == w or n.startswith(w + ".") or w.startswith(n + ".") for w in ws for n in names)  # noqa
+            if "*" in wa | wb or pref(wa, rb | wb) or pref(wb, ra):
+                continue
+            t = copy.deepcopy(base)
+            blk = _blocks(_func_node(t, qual))[bi]
+            blk[si], blk[si + 1] = blk[si + 1], blk[si]
+            swaps += 1
+            yield (f"swap independent assignments at lines {a.lineno} and {b.lineno}", _unparse(t))
     # no-op insertion at the top of the function
     t = copy.deepcopy(base)
     fn = _func_node(t, qual)
